@@ -146,7 +146,7 @@ void runT(Case& c, bool mid, unsigned nops) {
       }
       checkAll(c, *dp, m, CS, tracked);
     }
-    c.lastOp = "destructor";
+    c.phase("destructor");
   }
   c.lifetimesOk(tracked ? 0 : -1);
 }
